@@ -166,3 +166,144 @@ class AXISlaveStub:
             if stmts:
                 yield stmts
             yield
+
+
+class AXIMaster:
+    """Random legal AXI4 master: five independent channel processes sharing one plan.
+
+    writes: list of dict(id, addr, len, size, burst, beats=[(data, strb)], gap_aw, gaps_w)
+    reads : list of dict(id, addr, len, size, burst, gap, after_b=index of the write whose B must have been seen or None)
+    Records handshake cycles: aw_t, w_t (per beat), b (cycle, id), ar_t, r beats (cycle, id, data, last)."""
+
+    def __init__(self, axi, writes, reads, rng, ready_b=0.7, ready_r=0.7, long_stall=0.0):
+        self.axi = axi
+        self.writes = writes
+        self.reads = reads
+        self.rng = rng
+        self.b_log = []
+        self.r_log = []
+        self.aw_t = []
+        self.w_offer = []
+        self.w_t = []
+        self.ar_t = []
+        self.cycle = 0
+        self.b_seen = 0
+        self.st_b = StallGen(rng, ready_b, long_stall)
+        self.st_r = StallGen(rng, ready_r, long_stall)
+        self.done_aw = self.done_w = self.done_ar = False
+        self.stalls = dict(aw=0, w=0, ar=0, b=0, r=0)
+        self.protocol = []
+
+    def processes(self):
+        return [self._clock(), self._aw(), self._w(), self._b(), self._ar(), self._r()]
+
+    def all_issued(self):
+        return self.done_aw and self.done_w and self.done_ar
+
+    def _clock(self):
+        yield "passive"
+        while True:
+            yield
+            self.cycle += 1
+
+    def _chan(self, ep, items, fields_of, gap_of, log, done_attr, stall_key, gate=None, offers=None):
+        yield "passive"
+        i = 0
+        valid = 0
+        gap = None
+        yield ep.valid.eq(0)
+        yield
+        while True:
+            ready = yield ep.ready
+            if valid and ready:
+                log.append(self.cycle)
+                valid = 0
+                i += 1
+                gap = None
+            elif valid:
+                self.stalls[stall_key] += 1
+            if i >= len(items):
+                setattr(self, done_attr, True)
+            stm = []
+            if not valid and i < len(items):
+                if gap is None:
+                    gap = gap_of(items[i])
+                if gap > 0:
+                    gap -= 1
+                elif gate is None or gate(items[i]):
+                    stm.append(ep.valid.eq(1))
+                    for k, v in fields_of(items[i]).items():
+                        stm.append(getattr(ep, k).eq(v))
+                    valid = 1
+                    if offers is not None:
+                        offers.append(self.cycle + 1)
+            if not valid:
+                stm.append(ep.valid.eq(0))
+            if stm:
+                yield stm
+            yield
+
+    def _aw(self):
+        f = lambda w: dict(addr=w["addr"], len=w["len"], size=w["size"], burst=w["burst"], id=w["id"])
+        return self._chan(self.axi.aw, self.writes, f, lambda w: w["gap_aw"], self.aw_t, "done_aw", "aw")
+
+    def _w(self):
+        beats = []
+        for wi, w in enumerate(self.writes):
+            for bi, (d, s) in enumerate(w["beats"]):
+                beats.append(dict(data=d, strb=s, last=int(bi == len(w["beats"]) - 1), gap=w["gaps_w"][bi]))
+        f = lambda b: dict(data=b["data"], strb=b["strb"], last=b["last"])
+        return self._chan(self.axi.w, beats, f, lambda b: b["gap"], self.w_t, "done_w", "w", offers=self.w_offer)
+
+    def _ar(self):
+        f = lambda r: dict(addr=r["addr"], len=r["len"], size=r["size"], burst=r["burst"], id=r["id"])
+        gate = lambda r: r.get("after_b") is None or self.b_seen > r["after_b"]
+        return self._chan(self.axi.ar, self.reads, f, lambda r: r["gap"], self.ar_t, "done_ar", "ar", gate)
+
+    def _b(self):
+        yield "passive"
+        b = self.axi.b
+        ready = 0
+        yield b.ready.eq(0)
+        yield
+        first = None
+        while True:
+            v, bid, resp = yield [b.valid, b.id, b.resp]
+            if v and first is None:
+                first = self.cycle
+            if v and not ready:
+                self.stalls["b"] += 1
+            if v and ready:
+                self.b_log.append((self.cycle, bid, resp, first))
+                self.b_seen += 1
+                first = None
+            n = self.st_b.next()
+            if n != ready:
+                yield b.ready.eq(n)
+                ready = n
+            yield
+
+    def _r(self):
+        yield "passive"
+        r = self.axi.r
+        ready = 0
+        yield r.ready.eq(0)
+        yield
+        prev = None
+        while True:
+            v, rid, data, last, resp = yield [r.valid, r.id, r.data, r.last, r.resp]
+            if v and not ready:
+                self.stalls["r"] += 1
+                cur = (rid, data, last)
+                if prev is not None and prev != cur:
+                    self.protocol.append(dict(kind="r-payload-changed-while-stalled", cycle=self.cycle))
+                prev = cur
+            else:
+                prev = None
+            if v and ready:
+                self.r_log.append((self.cycle, rid, data, last, resp))
+            n = self.st_r.next()
+            if n != ready:
+                yield r.ready.eq(n)
+                ready = n
+            yield
